@@ -28,6 +28,7 @@ def mint(model, t):
 class InputFactory:
     def __init__(self, I):
         self.I = I
+        self.seq = 0
         self.mods = {}
 
     def mod(self, name):
@@ -212,7 +213,8 @@ class InputFactory:
         def handler(I_, f, args, kwargs):
             k = len(calls)
             r = self.make(ret_sort, f'{hint}_r{k}')
-            calls.append({'args': list(args), 'kwargs': dict(kwargs), 'result': r.value, 'si': r})
+            self.seq += 1
+            calls.append({'args': list(args), 'kwargs': dict(kwargs), 'result': r.value, 'si': r, 'seq': self.seq})
             return r.value
         fn = SymCallable(hint, handler)
         fn.calls = calls
